@@ -5,6 +5,7 @@ import (
 	"fmt"
 
 	"github.com/kelindar/column"
+	"github.com/kelindar/column/commit"
 )
 
 // Deterministic reproductions of recorded/repaired defects (DESIGN.md §7). Each
@@ -383,6 +384,18 @@ func init() {
 			c.Query(func(txn *column.Txn) error { n = txn.With("missing").Union("a").Count(); return nil })
 			if n != 1 {
 				return true, fmt.Sprintf("one row with a=true: With(missing).Union(a) selects %d rows, set algebra gives 1", n)
+			}
+			return false, ""
+		})
+}
+
+func init() {
+	registerKF("f01-clone-drops-id", "C15,C05",
+		"commit.Commit.Clone did not copy the ID: every commit received through commit.Channel had ID 0",
+		func() (bool, string) {
+			cm := commit.Commit{ID: 42, Chunk: 3}
+			if cl := cm.Clone(); cl.ID != 42 || cl.Chunk != 3 {
+				return true, fmt.Sprintf("Clone of {ID:42 Chunk:3} is {ID:%d Chunk:%d}", cl.ID, cl.Chunk)
 			}
 			return false, ""
 		})
